@@ -125,12 +125,23 @@ theorem trim_id_of_forall (sp : Char → Bool) (l : Str) (h : ∀ x ∈ l, sp x 
   simp
 
 theorem keep_not_pairkey (c : Char) (h : keep c = true) : pairs.lookup c = none := by
-  have h1 : c ≠ ' ' := by intro e; subst e; revert h; decide
-  have h2 : c ≠ '+' := by intro e; subst e; revert h; decide
-  have h3 : c ≠ '*' := by intro e; subst e; revert h; decide
-  have h4 : c ≠ ':' := by intro e; subst e; revert h; decide
-  simp [pairs, List.lookup, h1, h2, h3, h4]
-  repeat (first | split | rfl | (rename_i he; simp at he; simp_all))
+  have h1 : (c == ' ') = false := by
+    cases hc : c == ' ' with
+    | false => rfl
+    | true => have := eq_of_beq hc; subst this; revert h; decide
+  have h2 : (c == '+') = false := by
+    cases hc : c == '+' with
+    | false => rfl
+    | true => have := eq_of_beq hc; subst this; revert h; decide
+  have h3 : (c == '*') = false := by
+    cases hc : c == '*' with
+    | false => rfl
+    | true => have := eq_of_beq hc; subst this; revert h; decide
+  have h4 : (c == ':') = false := by
+    cases hc : c == ':' with
+    | false => rfl
+    | true => have := eq_of_beq hc; subst this; revert h; decide
+  simp only [pairs, List.lookup, h1, h2, h3, h4]
 
 theorem repl_id_of_keep (l : Str) (h : ∀ x ∈ l, keep x = true) : repl l = l := by
   induction l with
